@@ -69,7 +69,7 @@ def run(chk):
         else:
             mcases.append(("csmodel", [given, c[1][1], b"0", b"", b"0", b""]))
     model = chk.run_model(mcases)
-    keep = [k for k, m in enumerate(mcases) if not debgen.has_uspace(m[1][3]) and not (m[1][0] == b"0" and debgen.has_uspace(m[1][1]))]
+    keep = list(range(len(mcases)))
     chk.compare("reader-vs-model-with-library-oracles", [mcases[k] for k in keep], [o3[k][1] for k in keep], [model[k] for k in keep],
                 nontrivial=lambda c, r: r.startswith("ok"))
     # the property itself, on the implementation's answers
